@@ -1026,8 +1026,14 @@ func genVal(r *gen.Rand, ty string, small int) tval {
 		}
 		return tval{i: intDom[r.Intn(min(small, len(intDom)))]}
 	case "float":
+		if r.Chance(1, 6) { // edge values: +-Inf, denormals, -0.0, +-MaxFloat64 (the writer pads a null with -MaxFloat64)
+			return tval{f: floatDom[8+r.Intn(len(floatDom)-8)]}
+		}
 		return tval{f: floatDom[r.Intn(min(small+1, len(floatDom)))]}
 	case "string":
+		if r.Chance(1, 6) { // \x00, \xff, multi-byte characters
+			return tval{s: strDom[10+r.Intn(len(strDom)-10)]}
+		}
 		return tval{s: strDom[r.Intn(min(small+1, len(strDom)))]}
 	case "bool":
 		return tval{b: r.Bool()}
